@@ -263,7 +263,7 @@ OPS = [
     (f"{CLS}._attach", {"self": "self"}, set()),
     (f"{CLS}.attach", {"self": "self"}, set()),
     (f"{CLS}.__post_init__", {"self": "self"}, {"self"}),
-    ("ASTTransformVisitor.transform", {"node": "clone", "orig_node": "orig"}, {"clone"}),
+    ("ASTTransformVisitor.transform", {"node": "clone", "orig_node": "orig", "transformed": "result"}, {"clone"}),
     ("ASTTransformer.execute", {"node": "root", "child": "child"}, set()),
 ]
 
@@ -314,6 +314,21 @@ def r_rollback(ck: Checker) -> None:
 def r_prechecks(ck: Checker) -> None:
     """Documented pre-checks are pure: they read and raise, nothing else."""
     f = ck.repo.func(LNODE, f"{CLS}._check_unique_children")
+    # duplicates are children with the same *id* (two objects with one id cannot both be registered): the seen-set holds ids
+    lps = [st for st in f.node.body if isinstance(st, ast.For) and "get_child_nodes" in norm(st.iter)]
+    if len(lps) == 1 and isinstance(lps[0].target, (ast.Tuple, ast.Name)):
+        cvar = norm(lps[0].target.elts[0]) if isinstance(lps[0].target, ast.Tuple) else norm(lps[0].target)
+        adds = [c for c in walk_body(lps[0].body) if isinstance(c, ast.Call) and isinstance(c.func, ast.Attribute) and c.func.attr == "add" and c.args]
+        tests = [c for c in walk_body(lps[0].body) if isinstance(c, ast.Compare) and len(c.ops) == 1 and isinstance(c.ops[0], (ast.In, ast.NotIn))]
+        keys = {norm(c.args[0]) for c in adds} | {norm(c.left) for c in tests}
+        what_u = "_check_unique_children rejects two children with the same id (not only the same object listed twice)"
+        if keys == {f"{cvar}.id"}:
+            ck.holds("R-LEG-PRECHECK", f, lps[0], what_u)
+        elif keys and all(k.startswith("id(") or k == cvar for k in keys):
+            ck.violation("R-LEG-PRECHECK", f, lps[0], what_u, construct=f"_check_unique_children compares {sorted(keys)[0]} (object identity): a node and its detached clone with the same id pass, "
+                         "and the collision is detected only after the first one was attached")
+        else:
+            raise Unsupported(f"_check_unique_children: duplicate test on {sorted(keys)}", f.node)
     prim = primitives_of(f.node)
     what = "_check_unique_children only reads and raises"
     (ck.holds if not prim else ck.violation)("R-LEG-PRECHECK", f, f.node, what, **({} if not prim else {"construct": f"_check_unique_children has effects {sorted(prim)}"}))
